@@ -3,6 +3,7 @@ package main
 import (
 	"fmt"
 	"go/ast"
+	"go/token"
 	"go/types"
 	"sort"
 	"strings"
@@ -469,6 +470,35 @@ func checkApplySite(c *Ctx, s applySite) {
 			if id, ok := e.(*ast.Ident); ok && f.Neg && flags[info.ObjectOf(id)] {
 				return true, "write flag is false"
 			}
+			// the false edge of a conjunction `err == nil && write`: one of the conjuncts failed — excused when
+			// each of them fails for an excused reason (an error, or the write flag being false)
+			if be, ok := e.(*ast.BinaryExpr); ok && f.Neg && be.Op == token.LAND {
+				var cs []ast.Expr
+				flattenAnd(be, &cs)
+				all := len(cs) > 0
+				for _, cj := range cs {
+					cj = ast.Unparen(cj)
+					okc := false
+					if id, ok := cj.(*ast.Ident); ok && flags[info.ObjectOf(id)] {
+						okc = true
+					}
+					if cb, ok := cj.(*ast.BinaryExpr); ok && cb.Op == token.EQL {
+						for _, side := range [][2]ast.Expr{{cb.X, cb.Y}, {cb.Y, cb.X}} {
+							if tv, ok := info.Types[side[1]]; ok && tv.IsNil() {
+								if xt, ok := info.Types[side[0]]; ok && isErrorType(xt.Type) {
+									okc = true
+								}
+							}
+						}
+					}
+					if !okc {
+						all = false
+					}
+				}
+				if all {
+					return true, "an error, or the write flag is false"
+				}
+			}
 			// msg.Command() == "publish" (either polarity of the test) in the follower's apply function
 			if be, ok := e.(*ast.BinaryExpr); ok && c.calledOnlyFrom("followHandleCommand")[s.fn.Obj] {
 				if be.Op.String() == "==" && !f.Neg || be.Op.String() == "!=" && f.Neg {
@@ -649,6 +679,10 @@ func ruleUpdatedFlag(c *Ctx) {
 				case *ast.CallExpr:
 					// delegation: the handler returns what another write handler returns (res, d, err = s.cmdSET(msg))
 					if f := callee(info, x); f != nil && f != h && seen[f] {
+						hit = true
+					}
+					// d = helper(…): a helper that builds the details and marks them updated on every path
+					if f := callee(info, x); f != nil && f != h && returnsUpdatedDetails(c, f, updated) {
 						hit = true
 					}
 				}
@@ -1010,4 +1044,67 @@ func ruleReplayDeterministic(c *Ctx) {
 		}
 	}
 	c.stat("replayed_functions_scanned", len(units))
+}
+
+var updatedDetailsCache = map[*types.Func]bool{}
+
+// returnsUpdatedDetails: f returns a commandDetails and every path to a return passes a store of a non-false
+// value to the updated field of the value it returns.
+func returnsUpdatedDetails(c *Ctx, f *types.Func, updated *types.Var) bool {
+	if v, ok := updatedDetailsCache[f]; ok {
+		return v
+	}
+	updatedDetailsCache[f] = false
+	fi := c.FuncOf(f)
+	if fi == nil || fi.Decl.Body == nil {
+		return false
+	}
+	sig := f.Type().(*types.Signature)
+	hasD := false
+	for i := 0; i < sig.Results().Len(); i++ {
+		if isNamedType(sig.Results().At(i).Type(), modPath+"/internal/server", "commandDetails") {
+			hasD = true
+		}
+	}
+	if !hasD {
+		return false
+	}
+	info := fi.Info()
+	fg := newFlowGraph(info, fi.Decl.Body)
+	isStore := func(n ast.Node) bool {
+		hit := false
+		inspectNoLit(n, func(y ast.Node) bool {
+			if as, ok := y.(*ast.AssignStmt); ok {
+				for i, lhs := range as.Lhs {
+					if selField(info, lhs) == updated && !(len(as.Lhs) == len(as.Rhs) && boolConst(info, as.Rhs[i]) == '0') {
+						hit = true
+					}
+				}
+			}
+			return true
+		})
+		return hit
+	}
+	any := false
+	for _, b := range fg.G.Blocks {
+		for _, n := range b.Nodes {
+			if isStore(n) {
+				any = true
+			}
+		}
+	}
+	if !any {
+		return false
+	}
+	skip, _ := fg.Reach(PathQuery{
+		Target: func(l Loc) bool {
+			if _, ok := l.Node.(*ast.ReturnStmt); ok {
+				return true
+			}
+			return len(l.Block.Succs) == 0 && l.Idx == len(l.Block.Nodes)-1
+		},
+		Avoid: func(l Loc) bool { return isStore(l.Block.Nodes[l.Idx]) },
+	})
+	updatedDetailsCache[f] = !skip
+	return !skip
 }
